@@ -98,6 +98,8 @@ func stackHash() uint64 {
 
 //go:norace
 func (e *Entropy) Read(p []byte) (int, error) {
+	// a read of the entropy source is a system call that may block: a scheduling point
+	Yield("entropy:read")
 	g := e.draws.Add(1) - 1
 	var t *task
 	if s := cur.Load(); s != nil && s.active.Load() {
